@@ -467,13 +467,17 @@ func main() {
 		runFillCases(r, n)
 	}
 	if mode == "all" || mode == "agg" {
+		timeouts = 0
 		runAggCases(r, n, nil)
 	}
 	if mode == "all" || mode == "limit" {
+		timeouts = 0
 		runLimitCases(r, n)
 	}
 	if mode == "all" || mode == "merge" {
+		timeouts = 0
 		runMergeCases(r, n, "merge")
+		timeouts = 0
 		runMergeCases(r, n, "sortmerge")
 	}
 }
